@@ -233,3 +233,11 @@ def contains_nan_or_inf(v):
     if isinstance(v, dict):
         return any(contains_nan_or_inf(x) for x in v.values())
     return False
+
+
+def eq_safe(a, b):
+    """eq() that treats a value whose accessors raise as unequal; returns (equal, error-or-None)."""
+    try:
+        return eq(a, b), None
+    except Exception as e:
+        return False, "%s: %s" % (type(e).__name__, str(e)[:200])
